@@ -149,7 +149,7 @@ async def _scenario(sc):
                 raise RuntimeError("callback failure injected by the harness")
 
         cancel = sc.get("cancel")
-        tok = sm.CancellationToken() if cancel is not None else None
+        tok = sm.CancellationToken() if (cancel is not None or sc.get("idle_token")) else None
         loop = asyncio.get_running_loop()
         t0 = loop.time()
         arrivals = sc["arrivals"]
@@ -504,6 +504,7 @@ def scenario_case(sc):
             **({"feeder_first": True} if sc.get("feeder_first") else {}),
             **({"debug_log": True} if sc.get("debug_log") else {}),
             **({"closed_before_call": True} if sc.get("closed_before_call") else {}),
+            **({"idle_token": True} if sc.get("idle_token") else {}),
             "arrivals": [[t, list(m)] for t, m in sc["arrivals"]]}
 
 
